@@ -12,6 +12,7 @@ import (
 	"verif/harness/internal/ev"
 	"verif/harness/internal/msg"
 	"verif/harness/internal/obs"
+	"verif/harness/internal/sched"
 	"verif/harness/internal/world"
 	"verif/harness/internal/xt"
 )
@@ -209,13 +210,19 @@ func c17Judge(c c17Case) (class string, clauses []string, detail map[string]any)
 		}
 		page = p
 	}
+	cl, more := c17JudgePage(c.Site, relay, target, page, detail)
+	return cl, append(clauses, more...), detail
+}
+
+// c17JudgePage judges one rendered auto-submit page against the values that went into it.
+func c17JudgePage(site, relay, target string, page []byte, detail map[string]any) (class string, clauses []string) {
 	bad := func(s string) { clauses = append(clauses, s) }
 	f := obs.ParseHTML(page)
-	base := c17Baseline(c.Site)
+	base := c17Baseline(site)
 	class = "form"
 	if f.Forms == 0 {
 		// no form at all: body delivery (e.g. the URL was rejected earlier) — nothing rendered, nothing to alter
-		return "no-form", nil, detail
+		return "no-form", nil
 	}
 	if f.Skeleton != base.Skeleton {
 		bad("tag-or-attribute-skeleton-differs-from-the-fixed-template")
@@ -285,7 +292,7 @@ func c17Judge(c c17Case) (class string, clauses []string, detail map[string]any)
 		class = "form/other-scheme"
 	}
 	detail["action_seen"] = f.Action
-	return class, clauses, detail
+	return class, clauses
 }
 
 func b64enc(b []byte) string { return base64Std(b) }
@@ -294,6 +301,9 @@ func init() { Registry["C17"] = runC17 }
 
 func runC17(ctx Ctx) int {
 	world.PinClock()
+	if rc, ok := concDispatch("C17", ctx); ok {
+		return rc
+	}
 	run := ev.NewRun("C17")
 	run.Rule = "all 256 single bytes and all strings of length <= 2 (quick) / <= 3 (thorough) over a 44-symbol set of bytes and multi-byte tokens (quotes, angle brackets, &, NUL, CR, LF, TAB, backtick, entity look-alikes, comment/form/script terminators, javascript:/data:/vbscript: in several disguises, U+2028, invalid UTF-8, template delimiters) plus a length ladder {0,255,4096,65536}, in the RelayState slot and in the consumer/logout URL slot (embedded in an https URL and as the whole URL), at 4 render sites (callback success, callback failure, SSO late error, logout); plus histories of two requests on one provider (16 site pairs x earlier response writer completing / failing at write 1..4); the page is tokenised by x/net/html and compared with the fixed template's skeleton"
 	run.Assume = []string{"the SAMLResponse slot only ever receives base64 produced by the IdP and is not varied", "URL values that are not XML-legal cannot be registered as SP metadata and are only placed in stored records (callback sites)"}
@@ -384,6 +394,83 @@ func runC17(ctx Ctx) int {
 	run.Sample(cases[10])
 	run.Sample(cases[len(cases)/2])
 	run.Sample(cases[len(cases)-1])
+	{
+		cb, cs := 1, 90
+		if run.Tier == "thorough" {
+			cb, cs = 2, 1200
+		}
+		runConc(run, "C17", cb, cs)
+	}
 	finishCapped(run, complete, fmt.Sprintf("%d renderings: %d values (256 bytes + all strings of length <= %d over %d symbols + ladder) x 3 slots x 4 sites", len(cases), len(values), maxLen, len(c17Symbols)))
 	return run.Finish()
 }
+
+
+// ---- concurrent part: two auto-submit pages rendered at the same time on ONE provider ---------------------------------------
+// Each page must be the fixed template around exactly ITS values, whatever page is being rendered next to it.
+
+type c17ConcBody struct {
+	Site, Relay, Target string
+}
+
+var c17ConcPairs = [][2]c17ConcBody{
+	{{"callback-success", "t0-a\"<x>&'1", "https://sp-a.example/t0?x=\"y\"&z=1"}, {"callback-success", "t1-</form><script>alert(1)</script>", "https://sp-a.example/t1/'single'"}},
+	{{"callback-success", "t0-plain", "https://sp-a.example/t0"}, {"callback-failure", "t1-\"quoted\" & <b>", "https://sp-a.example/t1"}},
+	{{"callback-failure", "t0-&amp;&#34;", "https://sp-a.example/t0"}, {"callback-failure", "t1-\t\n", "https://sp-a.example/t1"}},
+	{{"logout", "t0-lo \"a\"", "https://sp-a.example/slo"}, {"logout", "t1-lo <b>", "https://sp-a.example/slo"}},
+	{{"logout", "t0-lo", "https://sp-a.example/slo?x=1&y=2"}, {"callback-success", "t1-cb \"q\"", "https://sp-a.example/t1"}},
+	{{"sso-late-error", "t0-sso '1'", "https://sp-a.example/acs"}, {"callback-failure", "t1-cb", "https://sp-a.example/t1"}},
+	{{"sso-late-error", "t0-sso <1>", "https://sp-a.example/acs"}, {"sso-late-error", "t1-sso \"2\"", "https://sp-a.example/acs"}},
+}
+
+func c17ConcScenarios() []concScenario {
+	var out []concScenario
+	for _, pr := range c17ConcPairs {
+		pr := pr
+		out = append(out, concScenario{
+			Name: pr[0].Site + " || " + pr[1].Site + " (" + pr[0].Relay + " / " + pr[1].Relay + ")",
+			Build: func() (*world.World, []func() *world.Reply) {
+				// the callback sites register SP A with its default metadata: they are prepared first, so that the
+				// registration a logout / SSO site needs (its own SLO / ACS location) is the one in force
+				first, second := 0, 1
+				if strings.HasPrefix(pr[1].Site, "callback") && !strings.HasPrefix(pr[0].Site, "callback") {
+					first, second = 1, 0
+				}
+				var dos [2]func(int) *world.Reply
+				w, d, ok0 := c17Prepare(pr[first].Site, pr[first].Relay, pr[first].Target, nil)
+				dos[first] = d
+				_, d, ok1 := c17Prepare(pr[second].Site, pr[second].Relay, pr[second].Target, w)
+				dos[second] = d
+				do0, do1 := dos[0], dos[1]
+				if !ok0 || !ok1 {
+					panic("c17 concurrent scenario cannot be prepared")
+				}
+				return w, []func() *world.Reply{func() *world.Reply { return do0(0) }, func() *world.Reply { return do1(0) }}
+			},
+			Judge: func(w *world.World, reps []*world.Reply, _ *sched.Exec) []concFinding {
+				var fs []concFinding
+				for t, rep := range reps {
+					if rep.Panic != "" {
+						continue
+					}
+					detail := map[string]any{}
+					cl, bad := c17JudgePage(pr[t].Site, pr[t].Relay, pr[t].Target, rep.Body, detail)
+					if cl == "no-form" {
+						bad = append(bad, "no-auto-submit-page-rendered")
+					}
+					other := pr[1-t]
+					if other.Relay != pr[t].Relay && strings.Contains(string(rep.Body), other.Relay[:3]) {
+						bad = append(bad, "page-contains-data-of-the-other-request")
+					}
+					for _, c := range bad {
+						fs = append(fs, concFinding{Clause: c, Thread: t, Detail: fmt.Sprint(detail)})
+					}
+				}
+				return fs
+			},
+		})
+	}
+	return out
+}
+
+func init() { concRegistry["C17"] = c17ConcScenarios }
